@@ -234,8 +234,8 @@ def check(ctx):
     m1 = mode1(ctx)
     traces = traces_for(ctx.seed, ctx.pick(300, 5000), ctx.pick(4, 7))
     # the recorded reproduction of known finding F1 is part of every run
-    f1 = [{"t": 26, "kind": "crash", "node": "wat"}, {"t": 27, "kind": "restart", "node": "wat"},
-          {"t": 30, "kind": "crash", "node": "srv"}, {"t": 30, "kind": "restart", "node": "srv"}]
+    f1 = [{"t": 20, "kind": "crash", "node": "wat"}, {"t": 21, "kind": "restart", "node": "wat"},
+          {"t": 22, "kind": "crash", "node": "srv"}, {"t": 22, "kind": "restart", "node": "srv"}]
     ev = run("inf", f1)
     traces.append({"cfg": mcfg("inf"), "ev": monpass.add_adv(ev), "faults": f1, "config": "inf",
                    "diag": {"config": "inf", "pattern": "F1" if f1_pattern(ev, "inf") else "", "faults": [(f["t"], f["kind"], f["node"]) for f in f1]}})
